@@ -395,8 +395,21 @@ def run(cx, rep):
     bytes_w = [mn for mn, m in priv.items() if len(m["function"]["params"]) == 1 and any(c[0] == pc_name for c in this_calls(m["function"]))
                and not any(nn["type"] == "CallExpression" and s(nn["callee"]).endswith(".encode") for nn in walk(m["function"]))]
     # (the finalisation also calls the compression function but takes no parameter)
-    bytes_w = bytes_w[0] if len(bytes_w) == 1 else None
     byte_w = u32_w = utf8_w = None
+    if len(bytes_w) > 1:
+        # a single-byte writer may store its byte in the block buffer itself (and compress a full block) instead of
+        # wrapping it into a one-element array (seed C13-q and its benign twin b107): told apart by the parameter's
+        # declared type - the block feeder takes the byte array, the single-byte writer a number
+        def ptype(mn):
+            p0 = priv[mn]["function"]["params"][0]
+            pat = p0.get("pat", p0)
+            ta = pat.get("typeAnnotation") or {}
+            return tsast.type_str(ta.get("typeAnnotation") or ta)
+        direct_byte = [mn for mn in bytes_w if ptype(mn) == "number"]
+        bytes_w = [mn for mn in bytes_w if mn not in direct_byte]
+        if len(direct_byte) == 1:
+            byte_w = direct_byte[0]
+    bytes_w = bytes_w[0] if len(bytes_w) == 1 else None
 
     def of_len(arg):
         a = unparen(arg)
